@@ -3,7 +3,7 @@
 use crate::corpus::{load_corpus, verif_root, Program};
 use crate::faults;
 use crate::gen;
-use crate::pool::{run_pool, run_worlds_fresh, Msg};
+use crate::pool::{run_pool, run_pool_opts, run_worlds_fresh, Msg};
 use crate::rng::{mix, Rng};
 use crate::sched::SchedSpec;
 use crate::simio::StreamSpec;
@@ -84,12 +84,19 @@ struct Agg {
     proc_tags: BTreeMap<usize, Vec<String>>,
     /// added to the pool's process ids (several pools run during one check)
     proc_offset: usize,
+    /// (process, request key, world tag, job index) of references whose request is not a corpus program
+    ref_origin: Vec<(usize, u64, String, usize)>,
+    /// world tag of a violation -> process that reported it
+    violation_proc: BTreeMap<String, usize>,
 }
 
 impl Agg {
     fn absorb_r(&mut self, procid: usize, r: RMsg) {
         for (k, h) in &r.refs {
             self.proc_refs.push((procid + self.proc_offset, *k, *h));
+        }
+        for (k, t, j) in &r.ref_origin {
+            self.ref_origin.push((procid + self.proc_offset, *k, t.clone(), *j));
         }
         for (k, v) in r.stats {
             *self.stats.entry(k).or_insert(0) += v;
@@ -124,12 +131,18 @@ impl Agg {
         }
     }
     fn run(&mut self, n: usize, items: Vec<Item>) {
-        let rx = run_pool(n, items);
+        self.run_opts(n, items, false)
+    }
+    fn run_opts(&mut self, n: usize, items: Vec<Item>, fresh: bool) {
+        let rx = run_pool_opts(n, items, fresh);
         for m in rx {
             match m {
                 Msg::R(p, r) => self.absorb_r(p, r),
                 Msg::Tags(p, t) => self.proc_tags.entry(p + self.proc_offset).or_default().extend(t),
-                Msg::V(v) => self.violations.push(v),
+                Msg::V(p, v) => {
+                    self.violation_proc.insert(v.tag.clone(), p + self.proc_offset);
+                    self.violations.push(v)
+                }
                 Msg::D(t, d) => {
                     self.digests.insert(t, d);
                 }
@@ -204,10 +217,12 @@ pub fn check(prop: &str, tier_name: &str) -> i32 {
         }
     }
     // ---- phase 0: determinism self-test (same seeds, different processes, different worker counts)
+    // Both runs use the same batches of 16 seeds, each batch in a brand-new worker process, so that
+    // process histories are identical and every event (ticks, traces, I/O sizes, observations) must match.
     let mut a1 = Agg::default();
-    a1.run(1.max(nw / 4), batches(prop, base, 0, t.selftest, t.selftest.div_ceil(3), true));
+    a1.run_opts(1.max(nw / 4), batches(prop, base, 0, t.selftest, 16, true), true);
     let mut a2 = Agg { proc_offset: 500_000, ..Default::default() };
-    a2.run(nw, batches(prop, base, 0, t.selftest, 16, true));
+    a2.run_opts(nw, batches(prop, base, 0, t.selftest, 16, true), true);
     if !a1.broken.is_empty() || !a2.broken.is_empty() {
         eprintln!("HARNESS: {:?} {:?}", a1.broken, a2.broken);
         return 2;
@@ -313,6 +328,8 @@ pub fn check(prop: &str, tier_name: &str) -> i32 {
     }
     agg.delivered.extend(a2.delivered.iter());
     agg.violations.extend(a2.violations.drain(..));
+    let vp2 = std::mem::take(&mut a2.violation_proc);
+    agg.violation_proc.extend(vp2);
     agg.deaths.extend(a2.deaths.drain(..));
     agg.samples.extend(a2.samples.drain(..));
     if !agg.broken.is_empty() {
@@ -365,7 +382,32 @@ pub fn check(prop: &str, tier_name: &str) -> i32 {
     // of the same request in a pristine process (the first and only thing that process does).
     let mut pristine_checked = 0usize;
     if prop == "C05" {
-        let pristine = pristine_hashes(&corpus, nw);
+        let mut pristine = pristine_hashes(&corpus, nw);
+        // plus a seeded sample of the other requests (soup programs, siblings): regenerate the job from
+        // the tag of the world it appeared in and observe it in a pristine process too
+        {
+            let mut origins: Vec<&(usize, u64, String, usize)> = agg.ref_origin.iter().filter(|o| !pristine.contains_key(&o.1)).collect();
+            let mut rs = Rng::new(mix(base, 0x5A));
+            let want = if t.name == "quick" { 400 } else { 4000 };
+            let mut picked: Vec<JobSpec> = Vec::new();
+            let mut tries = 0;
+            while picked.len() < want && !origins.is_empty() && tries < want * 3 {
+                tries += 1;
+                let o = origins.swap_remove(rs.usize_below(origins.len()));
+                if let Some(w) = world_of_tag(prop, base, &o.2, &corpus) {
+                    if let Some(j) = w.jobs.get(o.3) {
+                        if j.key() == o.1 {
+                            let mut cj = j.clone();
+                            cj.reader = StreamSpec::canonical();
+                            cj.writer = StreamSpec::canonical();
+                            picked.push(cj);
+                        }
+                    }
+                }
+            }
+            let extra = pristine_of_jobs(picked, nw);
+            pristine.extend(extra);
+        }
         pristine_checked = pristine.len();
         let mut refs = agg.proc_refs.clone();
         refs.extend(a2.proc_refs.iter().cloned());
@@ -373,12 +415,18 @@ pub fn check(prop: &str, tier_name: &str) -> i32 {
         tags.extend(a2.proc_tags.iter().map(|(k, v)| (*k, v.clone())));
         let mut seen_keys = BTreeSet::new();
         for (procid, key, hash) in refs {
-            let Some(p) = pristine.get(&key) else { continue };
-            if *p == hash || !seen_keys.insert(key) {
+            let Some((raw, combined)) = pristine.get(&key) else { continue };
+            if *raw == hash || !seen_keys.insert(key) {
                 continue;
             }
+            let p = combined;
             println!("simc: request {:016x}: observation inside worker process {} differs from its observation in a pristine process", key, procid);
-            let Some(job) = corpus.iter().map(gen::job_of).find(|j| j.key() == key) else { continue };
+            let job = corpus.iter().map(gen::job_of).find(|j| j.key() == key).or_else(|| {
+                agg.ref_origin.iter().chain(a2.ref_origin.iter()).filter(|o| o.1 == key).find_map(|o| {
+                    world_of_tag(prop, base, &o.2, &corpus).and_then(|w| w.jobs.get(o.3).cloned()).filter(|j| j.key() == key)
+                })
+            });
+            let Some(job) = job else { continue };
             let hist = tags.get(&procid).cloned().unwrap_or_default();
             match prochist_violation(&root, prop, base, &corpus, &hist, &job, *p) {
                 Some(path) => {
@@ -391,6 +439,26 @@ pub fn check(prop: &str, tier_name: &str) -> i32 {
                 }
             }
             break;
+        }
+    }
+    if selftest_pending && exit == 0 && prop == "C05" {
+        // a world whose observations differed between the two self-test runs: compare it after the
+        // history of the process that ran it with the same world alone in a pristine process
+        let mut tags = a1.proc_tags.clone();
+        tags.extend(a2.proc_tags.iter().map(|(k, v)| (*k, v.clone())));
+        'outer: for t in nondet.iter().filter(|t| t.starts_with("c05:")).take(4) {
+            let Some(w) = world_of_tag(prop, base, t, &corpus) else { continue };
+            let Some(pristine) = last_obs_hash(prop, std::slice::from_ref(&w)) else { continue };
+            for (_, hist) in tags.iter() {
+                let Some(pos) = hist.iter().position(|x| x == t) else { continue };
+                let full = regen_history(prop, base, &corpus, &hist[..pos]);
+                if let Some(path) = prochist_last_world(&root, prop, &full, w.clone(), pristine) {
+                    println!("simc: world {} is observed differently after the history of its worker process than alone in a pristine process", t);
+                    println!("VIOLATION property={} replay={}", prop, path);
+                    exit = 1;
+                    break 'outer;
+                }
+            }
         }
     }
     if selftest_pending && exit == 0 && by_key.is_empty() {
@@ -466,7 +534,40 @@ pub fn check(prop: &str, tier_name: &str) -> i32 {
                     break;
                 }
             }
+            // still not: use everything the reporting worker process had run before that world
+            if !done {
+                let mut tags = agg.proc_tags.clone();
+                tags.extend(a2.proc_tags.iter().map(|(k, v)| (*k, v.clone())));
+                for v in cands.iter().take(2) {
+                    let Some(procid) = agg.violation_proc.get(&v.tag) else { continue };
+                    let Some(hist) = tags.get(procid) else { continue };
+                    let Some(pos) = hist.iter().position(|x| *x == v.tag) else { continue };
+                    let Some(w) = v.worlds.last() else { continue };
+                    let Some(job) = w.jobs.iter().find(|j| j.key() == v.job_key) else { continue };
+                    let mut cj = job.clone();
+                    cj.reader = StreamSpec::canonical();
+                    cj.writer = StreamSpec::canonical();
+                    let Some(pristine) = last_obs_hash(prop, &[World::solo(prop, cj.clone())]) else { continue };
+                    let mut full = regen_history(prop, base, &corpus, &hist[..pos]);
+                    full.push(w.clone());
+                    if let Some(path) = prochist_from_worlds(&root, prop, &full, &cj, pristine) {
+                        println!("simc: {} x{}: {} (reproduced from the worker's process history)", key, count, v.detail.chars().take(300).collect::<String>());
+                        println!("VIOLATION property={} replay={}", prop, path);
+                        exit = 1;
+                        reported += 1;
+                        done = true;
+                        break;
+                    }
+                }
+            }
             if done {
+                continue;
+            }
+            if exit == 1 {
+                // a violation of this property has been confirmed already; this one depends on state the
+                // replays could not rebuild in isolation (most likely the same hidden state)
+                println!("simc: divergence {} x{} seen during the search was not reproduced in isolation; not reported separately", key, count);
+                unknown_keys -= 1;
                 continue;
             }
         }
@@ -620,8 +721,12 @@ fn abort_key(class: &str, w: &World) -> String {
 }
 
 /// Observation hash of every corpus program compiled canonically as the only job of a fresh process.
-fn pristine_hashes(corpus: &[Program], nw: usize) -> BTreeMap<u64, u64> {
-    let jobs: Vec<JobSpec> = corpus.iter().map(gen::job_of).collect();
+/// key -> (raw observation hash, combined hash as `last_obs_hash` computes it)
+fn pristine_hashes(corpus: &[Program], nw: usize) -> BTreeMap<u64, (u64, u64)> {
+    pristine_of_jobs(corpus.iter().map(gen::job_of).collect(), nw)
+}
+
+fn pristine_of_jobs(jobs: Vec<JobSpec>, nw: usize) -> BTreeMap<u64, (u64, u64)> {
     let jobs = std::sync::Arc::new(jobs);
     let next = std::sync::Arc::new(std::sync::atomic::AtomicUsize::new(0));
     let out = std::sync::Arc::new(std::sync::Mutex::new(BTreeMap::new()));
@@ -635,7 +740,7 @@ fn pristine_hashes(corpus: &[Program], nw: usize) -> BTreeMap<u64, u64> {
             }
             if let Ok((_, r)) = run_worlds_fresh("C05", &[World::solo("C05", jobs[i].clone())], 60) {
                 if let Some(o) = r.obs.first() {
-                    out.lock().unwrap().insert(o.2, o.3);
+                    out.lock().unwrap().insert(o.2, (o.3, { let mut h = crate::rng::Fnv::new(); h.write_u64(o.1 as u64); h.write_u64(o.3); h.finish() }));
                 }
             }
         }));
@@ -666,9 +771,24 @@ fn regen_history(prop: &str, base: u64, corpus: &[Program], tags: &[String]) -> 
     v
 }
 
+/// Observation hashes of the jobs of the last world, after running all `worlds` in one fresh process
+/// (combined into one value; None when the process died).
 fn last_obs_hash(prop: &str, worlds: &[World]) -> Option<u64> {
     match run_worlds_fresh(prop, worlds, 60) {
-        Ok((_, r)) => r.obs.iter().filter(|o| o.0 == worlds.len() - 1).map(|o| o.3).next(),
+        Ok((_, r)) => {
+            let mut h = crate::rng::Fnv::new();
+            let mut n = 0;
+            for o in r.obs.iter().filter(|o| o.0 == worlds.len() - 1) {
+                h.write_u64(o.1 as u64);
+                h.write_u64(o.3);
+                n += 1;
+            }
+            if n == 0 {
+                None
+            } else {
+                Some(h.finish())
+            }
+        }
         Err(_) => None,
     }
 }
@@ -686,8 +806,12 @@ fn prochist_from_worlds(root: &std::path::Path, prop: &str, full: &[World], job:
     let mut cj = job.clone();
     cj.reader = StreamSpec::canonical();
     cj.writer = StreamSpec::canonical();
-    let job = &cj;
-    let last = World::solo(prop, job.clone());
+    prochist_last_world(root, prop, full, World::solo(prop, cj), pristine)
+}
+
+/// `last`: a world whose observations after `full` differ from `pristine` (its observations alone in a fresh process).
+fn prochist_last_world(root: &std::path::Path, prop: &str, full: &[World], last: World, pristine: u64) -> Option<String> {
+    let name_key = last.jobs.iter().fold(last.seed, |a, j| crate::rng::mix(a, j.key()));
     let differs = |h: &[World]| -> bool {
         let mut w = h.to_vec();
         w.push(last.clone());
@@ -719,7 +843,7 @@ fn prochist_from_worlds(root: &std::path::Path, prop: &str, full: &[World], job:
     };
     let dir = root.join("replays");
     let _ = std::fs::create_dir_all(&dir);
-    let path = dir.join(format!("{}-PROCHIST-{:016x}.json", prop, job.key()));
+    let path = dir.join(format!("{}-PROCHIST-{:016x}.json", prop, name_key));
     std::fs::write(&path, serde_json::to_string_pretty(&rf).unwrap()).ok()?;
     Some(path.to_string_lossy().to_string())
 }
@@ -1142,7 +1266,7 @@ pub fn dbg(prop: &str, from: u64, to: u64) -> i32 {
             Msg::R(_, r) => println!("R worlds={:?} violations={:?} suppressed={:?}", r.stats.get("worlds"), r.stats.get("violations"), r.suppressed),
             Msg::Tags(..) => {}
             Msg::D(..) => {}
-            Msg::V(v) => println!("V {} {} | {} | {}", v.tag, v.key, v.job_label, v.detail.chars().take(200).collect::<String>()),
+            Msg::V(_, v) => println!("V {} {} | {} | {}", v.tag, v.key, v.job_label, v.detail.chars().take(200).collect::<String>()),
             Msg::Died { tag, status, diag, .. } => println!("DIED {} {} | {}", tag, status, diag.lines().last().unwrap_or("")),
             Msg::Broken(e) => println!("BROKEN {}", e),
         }
